@@ -57,6 +57,7 @@ def main():
         rec["demo_fails_with_change"] = rc != 0
         rec["ran"].append(run + " (with change): rc=%d" % rc)
         rec["demo_output_with_change"] = o[-1500:]
+        print("demo with change rc", rc, o[-300:])
         # our checks against the changed tree
         os.remove(os.path.join(wt, place, demo))
         rec["checks"] = {}
